@@ -192,7 +192,9 @@ def parse_with_formats(date_string, date_formats, settings):
                 try:
                     _check_strict_parsing(_get_missing_parts(date_format), settings)
                 except ValueError:
-                    continue
+                    # The string is written in this format but lacks a required part:
+                    # strictness only filters, no other reading of it may be returned.
+                    return _RejectedDateData(date_obj=None, period=period)
             missing_month = not any(m in date_format for m in ["%m", "%b", "%B"])
             missing_day = "%d" not in date_format
             if missing_month and missing_day:
@@ -247,7 +249,9 @@ class _DateLocaleParser:
     def _parse(self):
         for parser_name in self._settings.PARSERS:
             date_data = self._parsers[parser_name]()
-            if self._is_valid_date_data(date_data):
+            if self._is_valid_date_data(date_data) or isinstance(
+                date_data, _RejectedDateData
+            ):
                 return date_data
         else:
             return None
@@ -365,6 +369,11 @@ class DateData:
         )
 
         return "{}({})".format(self.__class__.__name__, properties_text)
+
+
+class _RejectedDateData(DateData):
+    """Internal: one of the given formats matched, but STRICT_PARSING or
+    REQUIRE_PARTS rejected what it states."""
 
 
 class DateDataParser:
@@ -518,6 +527,8 @@ class DateDataParser:
         res = parse_with_formats(date_string, date_formats or [], self._settings)
         if res["date_obj"]:
             return res
+        if isinstance(res, _RejectedDateData):
+            return DateData(date_obj=None, period="day", locale=None)
 
         date_string = sanitize_date(date_string)
 
@@ -525,6 +536,8 @@ class DateDataParser:
             parsed_date = _DateLocaleParser.parse(
                 locale, date_string, date_formats, settings=self._settings
             )
+            if isinstance(parsed_date, _RejectedDateData):
+                return DateData(date_obj=None, period="day", locale=None)
             if parsed_date:
                 parsed_date["locale"] = locale.shortname
                 if self.try_previous_locales:
